@@ -67,6 +67,8 @@ U(id) == CHOOSE u \in Units : u.id = id
 \* and within the time family resp. the bit/byte(/second) family
 Convertible(a, b) == a.fam = "none" \/ (a.fam = b.fam /\ a.fam \in {"time", "bits"})
 
+Max(S) == CHOOSE x \in S : \A y \in S : y <= x
+Min(S) == CHOOSE x \in S : \A y \in S : x <= y
 RZero == [p2 |-> 0, p10 |-> 0]
 RAdd(r, s) == [p2 |-> r.p2 + s.p2, p10 |-> r.p10 + s.p10]
 \* emitted number = number * 2^p2 * 10^p10
@@ -168,6 +170,31 @@ ApplyV(w, v) ==
       [] w.w = "Unit" -> [call |-> ConvertCall(v.call, w.from, w.to), prom |-> w.to]
       [] OTHER        -> v
 
+(* Collectors.  Distribution<V> and Mean<U> pull the observations out of their element values and    *)
+(* re-emit them under the unit the element type promises.  An element that wrote any OTHER unit than  *)
+(* the promised one is a validation error - "None" is a unit like every other here: a unitless        *)
+(* number is not silently adopted under the promised unit, nor a unit-ful one under "None".           *)
+CollectErr(prom, c) ==
+    CASE c.kind = "string" -> "collect-string"
+      [] c.kind = "error"  -> c.err
+      [] c.kind = "metric" /\ c.unit # prom   -> "unit-mismatch"
+      [] c.kind = "metric" /\ c.dims # <<>>   -> "collect-dimensions"
+      [] OTHER -> ""
+CollectErrs(prom, elems) == {i \in DOMAIN elems : CollectErr(prom, elems[i]) # ""}
+RECURSIVE CatObs(_, _)
+CatObs(elems, i) == IF i > Len(elems) THEN <<>> ELSE elems[i].obs \o CatObs(elems, i + 1)
+\* Distribution: no element values -> no call; any bad element -> one error; else all observations, promised unit
+CollectDist(prom, elems) ==
+    IF elems = <<>> THEN NoCall
+    ELSE IF CollectErrs(prom, elems) # {} THEN ErrorCall(CollectErr(prom, elems[Min(CollectErrs(prom, elems))]))
+    ELSE Metric(CatObs(elems, 1), prom, prom, <<>>, {})
+\* Mean (try_new / try_extend / record_value): a bad element -> Err; else one Repeated over all elements
+\* (here: elements with one observation each, the first carries the magnitude, the others are 0)
+CollectMean(prom, elems) ==
+    IF CollectErrs(prom, elems) # {} THEN ErrorCall(CollectErr(prom, elems[Min(CollectErrs(prom, elems))]))
+    ELSE IF Len(CatObs(elems, 1)) = 0 THEN NoCall
+    ELSE Metric(<<[t |-> "R", slot |-> 1, e2 |-> 0, e10 |-> 0, occ |-> Len(CatObs(elems, 1))]>>, prom, prom, <<>>, {})
+
 \* the unit-carrying part of a call: emitted number * scale(unit) = magnitude * scale(orig)
 PhysicalOK(c) ==
     c.kind = "metric" =>
@@ -182,8 +209,6 @@ RECURSIVE SumRatio(_, _)
 SumRatio(s, i) == IF i > Len(s) THEN RZero
                   ELSE RAdd(IF s[i].w = "Unit" THEN Ratio(U(s[i].from), U(s[i].to)) ELSE RZero, SumRatio(s, i + 1))
 UnitLayers(s) == {i \in DOMAIN s : s[i].w = "Unit"}
-Max(S) == CHOOSE x \in S : \A y \in S : y <= x
-Min(S) == CHOOSE x \in S : \A y \in S : x <= y
 
 DenoteV(b, s) ==
     LET base == BaseVal(b).call
@@ -228,9 +253,18 @@ EntryE ==
 EntryG ==
     [items |-> <<TsItem("T2"), CfgItem("cg"), ValItem("gs", StringCall),
                  ValItem("gm", Metric(<<Ob("U", 1, 0, 0)>>, "Count", "Count", <<"g0">>, {}))>>,
-     sg |-> <<"region">>]
+     \* three elements (the harness produces them with an iterator whose size hint is inexact)
+     sg |-> <<"region", "az", "cell">>]
 EntryEmpty == [items |-> <<>>, sg |-> <<>>]
-BaseEntry(b) == CASE b = "E" -> EntryE [] b = "G" -> EntryG [] b = "0" -> EntryEmpty
+\* small entries that differ only in their sample group: 0, 1, 2, 3 and 5 elements.  The suffix says how
+\* the harness produces the group ("x": iterator with an exact size hint, "i": filter_map / flat_map, lower
+\* bound 0) - invisible to the model, a (key, value) sequence is a (key, value) sequence.
+SgKeys == <<"k1", "k2", "k3", "k4", "k5">>
+SgBases == {"S0x", "S0i", "S1x", "S1i", "S2x", "S2i", "S3x", "S3i", "S5x", "S5i"}
+SgSize(b) == CASE b \in {"S0x", "S0i"} -> 0 [] b \in {"S1x", "S1i"} -> 1 [] b \in {"S2x", "S2i"} -> 2
+               [] b \in {"S3x", "S3i"} -> 3 [] b \in {"S5x", "S5i"} -> 5
+EntryS(b) == [items |-> <<TsItem("T1"), ValItem("u64", BaseVal("u64").call)>>, sg |-> SubSeq(SgKeys, 1, SgSize(b))]
+BaseEntry(b) == CASE b = "E" -> EntryE [] b = "G" -> EntryG [] b = "0" -> EntryEmpty [] b \in SgBases -> EntryS(b)
 
 (* Entry wrappers: [w, ds, deny, f] *)
 EW(w) == [w |-> w, ds |-> <<>>, deny |-> {}, f |-> ""]
